@@ -154,7 +154,8 @@ def split_impl(line):
     if toks and toks[0].startswith("ring="):
         ringflag = int(toks[0][5:])
         toks = toks[1:]
-    comp = " ".join(t.split("~")[0] for t in toks if t[0] != "~")
+    # an open the kernel refused (answer -1) is an operation that was not performed
+    comp = " ".join("-" if re.match(r"o\d+=-1$", t) else t.split("~")[0] for t in toks if t[0] != "~")
     return ringflag, comp, toks
 
 
